@@ -12,6 +12,7 @@ import (
 	"math/rand"
 	"os"
 	"runtime"
+	"sort"
 	"strconv"
 	"strings"
 	"sync"
@@ -164,13 +165,44 @@ func c16callDiffEnv(f *function) (r c16obs) {
 	return
 }
 
-// c16reasonNames: the reason is "<parts> changed" and mentions exactly the keys in want.
-func c16reasonNames(reason string, want map[string]bool) bool {
+// c16reasonParts reads a reason back into the parts it names: "<a> changed", "<a> and <b> changed", "<a>, <b>, and <c>
+// changed"; the generic "environment changed" names none.  ok = the text has that form.
+func c16reasonParts(reason string) (parts []string, ok bool) {
 	if !strings.HasSuffix(reason, " changed") {
+		return nil, false
+	}
+	s := strings.TrimSuffix(reason, " changed")
+	switch {
+	case s == "environment":
+		return nil, true
+	case strings.Contains(s, ", and "):
+		i := strings.LastIndex(s, ", and ")
+		parts = append(strings.Split(s[:i], ", "), s[i+len(", and "):])
+	case strings.Contains(s, " and "):
+		parts = strings.SplitN(s, " and ", 2)
+	default:
+		parts = []string{s}
+	}
+	return parts, true
+}
+
+// c16reasonNames: the reason is "<parts> changed" and the parts it names are exactly the keys in want -- every key in
+// want (listed in functionEnvKeys or not: a part of the environment that differs and that the reason has no name for
+// is a part it does not name), no key outside it, none twice.
+func c16reasonNames(reason string, want map[string]bool) bool {
+	parts, ok := c16reasonParts(reason)
+	if !ok {
 		return false
 	}
-	for _, k := range functionEnvKeys {
-		if strings.Contains(reason, string(k)) != want[string(k)] {
+	seen := map[string]bool{}
+	for _, p := range parts {
+		if !want[p] || seen[p] {
+			return false
+		}
+		seen[p] = true
+	}
+	for k, w := range want {
+		if w && !seen[k] {
 			return false
 		}
 	}
@@ -248,12 +280,42 @@ func c16siblings(targets []c16target, workers, procs int, seed int64, budget tim
 
 func c16wantKeys(differing map[string]bool) string {
 	var ks []string
+	listed := map[string]bool{}
 	for _, k := range functionEnvKeys {
+		listed[string(k)] = true
 		if differing[string(k)] {
 			ks = append(ks, string(k))
 		}
 	}
-	return strings.Join(ks, "|")
+	var others []string
+	for k, d := range differing {
+		if d && !listed[k] {
+			others = append(others, k)
+		}
+	}
+	sort.Strings(others)
+	return strings.Join(append(ks, others...), "|")
+}
+
+// c16diffKeysAll lists EVERY key for which the diff returned next to the reason has an edit: the keys of
+// functionEnvKeys first, in that order, then the others sorted ("-" = no mapping diff was returned).
+func c16diffKeysAll(d diff.ValueDiff) string {
+	md, ok := d.(*diff.MappingDiff)
+	if !ok || md == nil {
+		return "-"
+	}
+	has := map[string]bool{}
+	it := md.Edits().Iterate()
+	defer it.Done()
+	var k starlark.Value
+	for it.Next(&k) {
+		if s, ok := k.(starlark.String); ok {
+			has[string(s)] = true
+		} else {
+			has[k.String()] = true
+		}
+	}
+	return c16wantKeys(has)
 }
 
 func TestVerifC16Reason(t *testing.T) {
